@@ -4,9 +4,9 @@
 suf=$1; pre=$2; shift 2
 extra() {
   case $1 in
-    C01) echo "C05 C09 C13";; C02) echo "C06 C17";; C03) echo "C05 C13 C07";; C04) echo "C05 C07";; C05) echo "C04 C03";;
-    C06) echo "C19 C04";; C07) echo "C16 C08";; C08) echo "C13 C07 C12";; C09) echo "C10 C13 C12";; C10) echo "C09 C05";;
-    C11) echo "C12 C13 C05";; C12) echo "C08 C11";; C13) echo "C08 C10";; C14) echo "C15";; C15) echo "C05 C18 C11";;
+    C01) echo "C05 C09 C13 C15";; C02) echo "C06 C13 C17";; C03) echo "C05 C13 C07";; C04) echo "C05 C07";; C05) echo "C04 C03";;
+    C06) echo "C19 C07 C04";; C07) echo "C16 C08";; C08) echo "C13 C07 C12";; C09) echo "C10 C12 C13";; C10) echo "C09 C05";;
+    C11) echo "C12 C13 C05";; C12) echo "C08 C16 C11";; C13) echo "C08 C16 C10";; C14) echo "C15";; C15) echo "C05 C18 C11";;
     C16) echo "C07 C08";; C17) echo "C02 C11 C05";; C18) echo "C05 C11";; C19) echo "C06 C05";; C20) echo "C14";;
   esac
 }
